@@ -343,14 +343,7 @@ class Runner:
                             self.lines.append('R skip'); continue
                         ev = self.slots[seg[1]]
                         was_done = ev.processed
-                        try:
-                            v = env.run(until=ev)
-                        except BaseException:
-                            if getattr(ev, '_ok', None) is False:
-                                # the until-event itself failed: run() re-raises its exception from inside the callback
-                                # loop; DESIGN section 3 - the statement of C03 does not cover this case
-                                self.notes.append(('until-event-failed', self.lab(ev)))
-                            raise
+                        v = env.run(until=ev)
                         self.notes.append(('until-event', ev.processed, getattr(ev, '_ok', None), v is ev._value or v == ev._value, ev.defused, self.lab(ev), was_done))
                     else: v = env.run()
                     self.lines.append(f'R {self.fmt_val(v)} @{self.now()}')
